@@ -411,6 +411,9 @@ func checkC04(c *Ctx, r *Report) {
 			r.Check(isEx && len(os) > 0, fname+"|decode(reply)", dc.Pos(), "the decoder runs on the bytes returned by Transport.Send", "the decoder is not run on the bytes returned by this attempt's Transport.Send")
 		}
 	}
+
+	// a command whose retries were given up is a failed command (rule shared by C04, C10, C13)
+	checkRetryFailureReturned(c, r)
 }
 
 // phiCountsFromOne: phi with one constant edge 1 and one edge phi+1.
